@@ -68,6 +68,8 @@ def run(ctx):
     # ---------------- real fits (monitor)
     configs = [('numpy', 'scipy', False, False), ('numpy', 'scipy', False, True), ('numpy', 'minuit', False, False), ('numpy', 'minuit', False, True),
                ('pytorch', 'scipy', True, True), ('jax', 'scipy', True, False), ('tensorflow', 'scipy', True, True), ('pytorch', 'minuit', True, False)]
+    jax_stitch = ('jax', 'scipy', True, True)      # the jitted objective stitches fixed parameters inside the trace (opt_jax)
+    configs.append(jax_stitch)
     if not ctx.thorough:
         configs = configs[:4] + [configs[4 + ctx.seed % 4]]
     nfit = ctx.n(24, 400)
@@ -99,7 +101,7 @@ def run(ctx):
         poi_val = rng.choice([0.0, 0.0, 1.0, 2.5, float(bounds[m.config.poi_index][1])])   # incl. both POI bounds
         if i < 4: mode = 'fixed_poi' if i != 3 else 'free'; poi_val = [0.0, float(bounds[m.config.poi_index][1]), 0.0, 1.0][i]
         results = []
-        for (bk, opt, grad, stitch) in configs:
+        for (bk, opt, grad, stitch) in configs + ([jax_stitch] if not ctx.thorough and (i < 4 or i % 4 == 0) else []):
             pyhf.set_backend(bk, pyhf.optimize.minuit_optimizer(tolerance=1e-3) if opt == 'minuit' else pyhf.optimize.scipy_optimizer(tolerance=1e-10))
             tl = pyhf.tensorlib
             inp = {'model': kind, 'spec': spec, 'data': data, 'mode': mode, 'poi_val': poi_val, 'config': [bk, opt, grad, stitch], 'settings': fkw}
@@ -173,4 +175,32 @@ def run(ctx):
                 if math.isfinite(v) and v < best - 2e-3 * (1 + abs(best)):
                     ctx.fail('C05/not-optimal', 'a sampled feasible point has a lower objective than every fit', {'model': kind, 'spec': spec, 'data': data, 'mode': mode}, v, best)
         if i < 1: ctx.sample({'fit_case': {'model': kind, 'data': data, 'mode': mode}, 'objectives': results})
+    pyhf.set_backend('numpy', 'scipy')
+    # ---------------- directed: fixed sets whose fixed/variable index permutation is not its own inverse, on every stitching path
+    masks4 = [[False, False, True, False], [False, True, False, True], [False, False, False, True], [True, False, True, False]]
+    for j, mask in enumerate(masks4 if ctx.thorough else masks4[(ctx.seed % 2)::2]):
+        pyhf.set_backend('numpy', 'scipy')
+        m = pyhf.simplemodels.uncorrelated_background([6.0, 9.0, 4.0], [50.0, 60.0, 40.0], [5.0, 7.0, 6.0])
+        init = [1.0, 1.02, 0.97, 1.01]; bounds = m.config.suggested_bounds()
+        data = [58.0, 66.0, 41.0] + m.config.auxdata
+        ref = None
+        for (bk, opt, grad, stitch) in [('numpy', 'scipy', False, False), ('numpy', 'scipy', False, True), ('numpy', 'minuit', False, True), jax_stitch, ('pytorch', 'scipy', True, True)]:
+            pyhf.set_backend(bk, pyhf.optimize.minuit_optimizer(tolerance=1e-3) if opt == 'minuit' else pyhf.optimize.scipy_optimizer(tolerance=1e-10))
+            tl = pyhf.tensorlib
+            inp = {'model': 'uncorrelated_background(3 bins)', 'data': data, 'init': init, 'fixed': mask, 'config': [bk, opt, grad, stitch]}
+            try:
+                pars, fun = pyhf.infer.mle.fit(data, m, init_pars=init, fixed_params=mask, return_fitted_val=True, do_grad=grad, do_stitch=stitch)
+            except Exception as e:  # noqa
+                ctx.fail('C05/closed-form-fit-failed', f'fit failed ({type(e).__name__}) on a well-posed model', inp, str(e)[:200]); continue
+            ctx.count(); ctx.tally('directed_fixed_mask', str(mask))
+            pars = np.asarray(tl.tolist(pars), dtype=float); fun = float(np.asarray(tl.tolist(fun)))
+            pyhf.set_backend('numpy')
+            tw = float(pyhf.infer.mle.twice_nll(pars, data, m)[0])
+            if abs(fun - tw) > 1e-8 * (1 + abs(tw)):
+                ctx.fail('C05/honest-objective', 'reported objective is not twice_nll at the returned parameters', inp, fun, tw)
+            if any(f and pars[k] != init[k] for k, f in enumerate(mask)):
+                ctx.fail('C05/fixed-exact', 'a parameter flagged fixed moved from its supplied value', inp, pars.tolist(), init)
+            if ref is None: ref = fun
+            elif abs(fun - ref) > (2e-3 if opt == 'minuit' else 1e-5) * (1 + abs(ref)):
+                ctx.fail('C05/configuration-dependence', 'attained objective depends on stitch/grad/optimiser/backend beyond tolerance', inp, fun, ref)
     pyhf.set_backend('numpy', 'scipy')
